@@ -118,7 +118,7 @@ Fixpoint run_1001 (n : nat) (idx : Z) (S : schema) (root : list Z) (md : mdesc) 
     | FZ 1 :: r =>
       match parse_path10 r with
       | Some (p, FB sub :: FZ err :: FZ ex :: FB res :: FZ acc :: rest) =>
-        match path_type S LSingular (TMsg root) p with
+        match path_type_lax S LSingular (TMsg root) p with
         | Some (LSingular, t) =>
           match decode_elem S t sub with
           | Some x => continue (judge idx S root m prev (OSet p x) (CSet p sub) err ex res acc) rest
